@@ -130,6 +130,10 @@ def EQ(a, b, tol=1e-9):
     if _issym(a, b):
         return SB(pysym.lift(a) == pysym.lift(b))
     a, b = float(a), float(b)
+    if a != a or b != b:                      # NaN is never an acceptable result
+        return False
+    if a in (float('inf'), float('-inf')) or b in (float('inf'), float('-inf')):
+        return a == b
     return abs(a - b) <= tol * max(1.0, abs(a), abs(b))
 
 
